@@ -34,7 +34,7 @@ MAP_MUTS = ["setitem", "delitem", "clear", "update", "inner_setitem", "inner_cle
 def floors(ctx):
     q = ctx.tier == "quick"
     f = {"evaluations": 5000 if q else 50000, "mutation_took_effect_on_copy": 1000, "protected_by_immutability": 500,
-         "input_probes": 300, "input_probes_with_unhashable_members": 50, "sibling_key_probes": 200, "first_read_after_other_side_change_probes": 200}
+         "input_probes": 300, "input_probes_with_unhashable_members": 50, "input_probes_fed_with_accessor_results": 10, "sibling_key_probes": 200, "first_read_after_other_side_change_probes": 200}
     for acc in ("links", "vertices", "u_vertices", "universes", "neighbors", "find_links", "bft", "dft_recursive",
                 "dft_iterative", "ibft", "edge_whitelist"):
         for mode in ("off", "cold", "warm", "off_then_on", "off_cold"):
